@@ -201,6 +201,9 @@ def call_builtin(E, name, args, kw, st, out, node):
         raise OutOfSubset("any/all of %r" % (v,))
     if name == "iter":
         v = args[0]
+        if isinstance(v, (VNone, VInt, VBool)) or (isinstance(v, VConst) and isinstance(v.obj, (int, float))):
+            E.raise_(st, "TypeError", out, node)      # iter() of a non-iterable
+            return []
         if isinstance(v, VObj):
             E.may_raise_any(st, out, node, "iter")
         return [(st, v)]
@@ -533,9 +536,17 @@ def construct(E, cls, args, kw, st, out, node):
     self_ = VRef(r, cls)
     info = E.class_info(cls)
     if info.get("seq"):
-        if args:
-            raise OutOfSubset("sequence constructor with arguments")
-        st.heap["$len"] = z3.Store(E.heap(st, "$len"), r, z3.IntVal(0))
+        if args and not (len(args) == 1 and isinstance(args[0], VCList) and all(isinstance(x, VRef) for x in args[0].items)):
+            raise OutOfSubset("sequence constructor with non-literal arguments")
+        elems = args[0].items if args else []
+        arr = z3.Const(fresh_name("items_new"), z3.ArraySort(I, I))
+        for idx, x in enumerate(elems):
+            arr = z3.Store(arr, idx, x.t)
+        named = z3.Const(fresh_name("items"), arr.sort())
+        st.assume(named == arr)
+        st.heap["$len"] = z3.Store(E.heap(st, "$len"), r, z3.IntVal(len(elems)))
+        st.heap["$items"] = z3.Store(E.heap(st, "$items"), r, named)
+        args = []     # list.__init__ consumed them; SectionItems.__init__ only sets the flag
     q = E.find_method(cls, "__init__")
     if q is None:
         return [(st, self_)]
